@@ -51,6 +51,7 @@ pub struct Style {
     pub prefix: bool,     // nc:/jc: prefixes instead of default namespace declarations
     pub ws_between: bool, // newline + indentation between elements
     pub pad: Option<String>, // element name whose text is padded with whitespace
+    pub pad_crlf: bool,      // … with CR LF line ends (a document pretty-printed on another platform)
     pub comment_in: Option<String>, // element name that gets a comment between its children (or before end)
     pub comment_in_text: Option<String>, // element name that gets a comment inside its text
     pub flip_empty: Option<String>, // childless element name written in the other form (<x/> <-> <x></x>)
@@ -178,7 +179,7 @@ fn write(
                         s = format!("{s}<!-- c -->");
                     }
                     if st.pad.as_deref() == Some(e.name.as_str()) {
-                        s = format!("\n   {s} \t");
+                        s = if st.pad_crlf { format!("\r\n   {s}\r\n\t") } else { format!("\n   {s} \t") };
                     }
                     out.push_str(&s);
                 }
@@ -326,6 +327,14 @@ pub fn variants(root: &El) -> Vec<(String, Style)> {
             format!("pad-text@{n}"),
             Style {
                 pad: Some(n.clone()),
+                ..Default::default()
+            },
+        ));
+        v.push((
+            format!("pad-text-crlf@{n}"),
+            Style {
+                pad: Some(n.clone()),
+                pad_crlf: true,
                 ..Default::default()
             },
         ));
